@@ -156,7 +156,10 @@ pub fn run_one_path(rtm: &mut Option<Rt>, f: fn() -> rt::R, p: Pending) -> (Outc
                 (Outcome::Ok, Some((loc, msg)))
             } else {
                 let short = file.rsplit("/src/").next().unwrap_or(&file).to_string();
-                let krate = if file.starts_with("/repo/") || file.starts_with("src/") { "bc-envelope".to_string() } else { file.split('/').rev().nth(2).unwrap_or("").to_string() };
+                let krate = match file.find("/.cargo/registry/src/") {
+                    Some(i) => file[i + 21..].split('/').nth(1).unwrap_or("dependency").to_string(),
+                    None => if file.starts_with("/rustc/") || file.contains("/rustlib/") { "std".to_string() } else { "bc-envelope".to_string() },
+                };
                 (Outcome::Viol { site: format!("panic in {} [{}:{}]", cur_op(), krate, short), msg: format!("panicked at {}: {}", loc, msg) }, None)
             }
         }
